@@ -123,7 +123,7 @@ class Report:
             if kf is not None:
                 self.known_hits.append((kf, nm))
                 continue
-            path = self.write_replay(nm, {"kind": "bounded", "confirmed": True, **fl})
+            path = self.write_replay(nm, {"kind": "bounded", "confirmed": True, "rerun": b.get("_rerun"), **fl})
             self.violations.append((nm, path, True))
         for e in b.get("errors", []):
             self.undecided.append((b["name"], e))
@@ -203,7 +203,7 @@ class Report:
             out_of_subset=self.unsupported,
             enumerations=[{k: v for k, v in e.items() if k != "items"} | {"items": e["items"][:10]} for e in self.enumerations],
             bounded_obligations=[
-                {k: v for k, v in b.items() if k not in ("failures", "samples", "errors")} for b in self.bounded
+                {k: v for k, v in b.items() if k not in ("failures", "samples", "errors", "_rerun")} for b in self.bounded
             ],
             bounded_evaluations=b_evals,
             evaluations=max(b_evals + n_obl, 1),
@@ -266,4 +266,6 @@ def run_bounded(script, tier, seed, extra_args=(), timeout=1500):
             failures=[],
             errors=[f"bounded script crashed rc={p.returncode}: {(p.stderr or p.stdout)[-600:]}"],
         )
-    return json.loads(lines[-1])
+    out = json.loads(lines[-1])
+    out["_rerun"] = dict(script=script, tier=tier, seed=int(seed), args=list(extra_args))
+    return out
